@@ -62,6 +62,15 @@ def obstruction_probe(xvc, rng, parallel, force=None):
 def run(chk, replay=None):
     chk.assumptions += ["ideal hash functions in the model; the oracle re-hashes with the reference BLAKE3 / hashlib",
                         "edits_visible: every user write of the runner gets a distinct explicit mtime"]
+    if replay and replay.get("kind") == "invisible-damage":
+        xvc = C.ensure_xvc()
+        chk.proof()
+        import random
+        from . import c01x
+        sc, bad = c01x.invisible_damage_probe(xvc, random.Random(replay["rseed"]), replay["parallel"])
+        for w in bad[:1]:
+            chk.fail("oracle", w, {"kind": "invisible-damage", "rseed": replay["rseed"], "parallel": replay["parallel"], "scenario": sc}, name="invisible")
+        return
     if replay and replay.get("kind") == "obstruction":
         xvc = C.ensure_xvc()
         chk.proof()
@@ -77,7 +86,7 @@ def run(chk, replay=None):
                          "delete + recheck or damage + recheck --force with one of the 4 methods or the stored one; 4 algorithms, 3 text-or-binary "
                          "modes, 4 default methods; odd histories parallel, even ones --no-parallel; `xvc file list` after every recheck. "
                          "non-trivial = a recheck restores a committed path that was absent or is forced over a modified copy; distinct by whole history"),
-                   theorems="recheck_restores_committed / force_replaces_modified_copy / force_keeps_recorded_version / track_commits_content / stays_restorable",
+                   theorems="recheck_restores_committed(_x) / force_replaces_modified_copy(_x) / force_keeps_recorded_version / track_commits_content / track_all_commit_content / stays_restorable(_x) / carry_in_keeps_missing_target",
                    list_kinds=("recheck",))
     if not replay:
         import random
@@ -92,4 +101,15 @@ def run(chk, replay=None):
                 nbad += 1
                 chk.fail("oracle", bad[0], {"kind": "obstruction", "rseed": rseed, "parallel": bool(i % 2), "force": (i % 4 != 0), "scenario": sc, "all": bad[:10]}, name="obstruction")
         chk.cov.setdefault("distribution", {})["obstruction_probes"] = nobs
+        # damage that cannot be seen in the metadata (same size and mtime) + recheck --force
+        from . import c01x
+        ninv, nbad = (8 if chk.tier == "quick" else 60), 0
+        for i in range(ninv):
+            rseed = chk.rng.randrange(1 << 30)
+            sc, bad = c01x.invisible_damage_probe(xvc, random.Random(rseed), parallel=bool(i % 2))
+            chk.count(("invisible-damage", rseed, i % 2), True)
+            if bad and nbad < 2:
+                nbad += 1
+                chk.fail("oracle", bad[0], {"kind": "invisible-damage", "rseed": rseed, "parallel": bool(i % 2), "scenario": sc, "all": bad[:10]}, name="invisible")
+        chk.cov["distribution"]["invisible_damage_probes"] = ninv
     return res
